@@ -268,9 +268,31 @@ def fixture(run):
     style_blind_rule(run)
 
 
+def box_outlines(run):
+    """T1 [N] completeness, per cell: a box drawn with sharp corners - `+` with `-` or `~` edges and `|` sides, or the box-drawing
+    characters - of any width and any number of side rows *including none* yields, cell by cell, fragments that
+    form a closed outline (every cell draws, every end point meets another fragment).  Without that the four merged sides
+    that `is_rect` needs never come into being.  Same model evaluation as C14.T4, on the sharp styles."""
+    from ..tae import Tables, TableError
+    from .c14 import t4
+    try:
+        T = Tables(run)
+    except TableError as ex:
+        run.missing("C05.T1", "character tables (%s)" % ex)
+        return
+    # sides are `|` (the statement's dashed `:` / `!` are stretches *within* a `|` side; a side made of nothing but one
+    # `:` between two `+` does not connect in the table and is not claimed by the statement)
+    styles = [("+", "+", "+", "+", hz, "|") for hz in "-~"]
+    for tl, tr, bl, br, hz, vt in (("┌", "┐", "└", "┘", "─", "│"), ("╔", "╗", "╚", "╝", "═", "║"), ("┏", "┓", "┗", "┛", "━", "┃")):
+        if all(c in T.unicode for c in (tl, tr, bl, br, hz, vt)):
+            styles.append((tl, tr, bl, br, hz, vt))
+    t4(run, T, rule="C05.T1", styles=styles, kind="sharp", floor=32)
+
+
 def run(run):
     prog = run.prog
     style_blind_rule(run)
+    box_outlines(run)
     fib = prog.method("is_broken", r"fragment::Fragment$", "")
     for fn, ctor, rounded in (("endorse_rect", "rect::Rect::new", False), ("endorse_rounded_rect", "rect::Rect::rounded_new", True)):
         ps = [p for p in prog.bodies if p.endswith("cell_buffer::endorse::" + fn)]
